@@ -993,7 +993,9 @@ var c20Rebinds = map[string]bool{"str": true, "strnum": true, "elist": true, "ni
 var c20TypedAddressable = map[string]bool{"tyelem": true, "tyfield": true, "tyderef": true, "tyelemvar": true}
 
 func c20MutatesInPlace(id string) bool {
-	return id == "method-ptr-recv" || id == "slice-store" || strings.HasPrefix(id, "elem-store-")
+	// addr-of-name: `&x` of a struct / array value is a pointer to the value's own cell exactly
+	// when the value sits in addressable storage (the same Go distinction)
+	return id == "method-ptr-recv" || id == "slice-store" || id == "addr-of-name" || strings.HasPrefix(id, "elem-store-")
 }
 
 var c20PtrKinds = map[string]bool{"ptrint": true, "pstruct": true, "errp": true, "reader": true}
@@ -1300,7 +1302,7 @@ func (g *c20Engine) chainOK(t *c20Tmpl, val *c20Val, chain []int) (bool, string)
 			return false, "address-of-non-name"
 		}
 	}
-	if (val.kind == "struct" || val.kind == "array" || (val.kind == "ncolor" && t.id != "method-ptr-recv")) && c20MutatesInPlace(t.id) {
+	if (val.kind == "struct" || val.kind == "array" || val.kind == "stringer" || (val.kind == "ncolor" && t.id != "method-ptr-recv" && t.id != "addr-of-name")) && c20MutatesInPlace(t.id) {
 		for i, ai := range chain {
 			if !c20TypedAddressable[g.atoms[ai].name] {
 				continue
@@ -1311,7 +1313,7 @@ func (g *c20Engine) chainOK(t *c20Tmpl, val *c20Val, chain []int) (bool, string)
 				// rebuilt and converted back by the typed place, see below)
 				return false, "in-place-mutation-of-value-in-addressable-storage"
 			}
-			if val.kind == "struct" || val.kind == "array" {
+			if val.kind == "struct" || val.kind == "array" || val.kind == "stringer" {
 				// a struct / array bound to a name from a typed slot is a copy in a cell of its own
 				// (like the value of make(struct) or *p): a pointer-receiver method or an element store
 				// through that name changes the name's copy, whereas a struct value handed in by the
